@@ -78,6 +78,11 @@ class ProgressBarHandler:
         """
         if self.show_progress_bar:
 
+            # This progress bar isn't complete yet. Note that we don't reset this when the map call is done: workers that
+            # are kept alive wait for the progress bar to be complete when they are eventually told to stop, which can
+            # be long after the map call that showed the progress bar
+            self.worker_comms.clear_progress_bar_complete()
+
             # Disable the interrupt signal. We let the thread die gracefully
             with DisableKeyboardInterruptSignal():
                 self.thread = Thread(target=self._progress_bar_handler)
